@@ -409,6 +409,7 @@ func checkC06(ctx *Ctx) *Result {
 		"R9.1": "invariant debug ⇒ configuration pointer ≠ nil is preserved by every path of every writer (SetDebug on a passthrough middleware leaves debug off)",
 		"R9.2": "documented transitions of creation, SetDebug, Reconfigure(nil / non-nil / invalid)",
 	}, nil)
+	r.share(checkC11(ctx), map[string]string{"R11.5": "every successful Reconfigure stores the builder's result for its own argument (or a verbatim copy of it): the zero-value middleware reconfigured with &c is built from c, like NewMiddleware(c)"}, nil)
 	r.share(checkC16(ctx), map[string]string{"R16.2": "successful debug-off preflights carry only constants and request-supplied tokens; `*,authorization` only under asterisk ∧ allowAuthorization ∧ ¬credentialed — the case Config() keeps `Authorization` for"}, nil)
 	return r
 }
